@@ -111,38 +111,63 @@ def norm_stderr(err, spelling, argv0base):
     return b"\n".join(out)
 
 
-def parse_vglog(path):
-    """-> (#uninitialised-value reports, top in-repo frame of the first, #other reports, top frame of first other)"""
+def vg_reports(path):
+    """-> list of (head line, [in-repo frames "file.c:func", innermost first]) for every memcheck report in the log"""
     try:
         txt = open(path, errors="replace").read()
     except OSError:
-        return 0, "", 0, ""
+        return []
     finally:
         try:
             os.unlink(path)
         except OSError:
             pass
-    u, uf, o, of = 0, "", 0, ""
+    reps = []
     for rep in re.split(r"\n==\d+== \n", "\n" + txt):
         lines = [re.sub(r"^==\d+== ?", "", l) for l in rep.strip().split("\n") if l.strip()]
         if not lines:
             continue
-        head = lines[0]
-        frame = ""
+        frames = []
         for l in lines[1:]:
             m = re.match(r"\s*(?:at|by) 0x[0-9A-Fa-f]+: (\w+) \((\w+\.[ch]):\d+\)", l)
             if m and os.path.exists(os.path.join(vlib.REPO, m.group(2))):
-                frame = "%s:%s" % (m.group(2), m.group(1))
-                break
+                frames.append("%s:%s" % (m.group(2), m.group(1)))
             if re.match(r"\s*(Address|Block|Uninitialised value was)", l):
                 break
+        reps.append((lines[0], frames))
+    return reps
+
+
+def parse_vglog(path):
+    """-> (#uninitialised-value reports, top in-repo frame of the first, #other reports, top frame of first other)"""
+    u, uf, o, of = 0, "", 0, ""
+    for head, frames in vg_reports(path):
+        frame = frames[0] if frames else "?"
         if UNINIT_PAT.search(head):
             u += 1
-            uf = uf or frame or "?"
+            uf = uf or frame
         elif re.match(r"(Invalid|Mismatched|Source and destination|Argument)", head):
             o += 1
-            of = of or frame or "?"
+            of = of or frame
     return u, uf, o, of
+
+
+def memerr_signature(proto):
+    """Diagnosis of a confirmed difference: does memcheck see an invalid access on this input?  -> 'none' or the two
+    innermost in-repo frames of the first invalid access, e.g. 'util.c:arrayaddbuf<pp.c:expandfunc'."""
+    log = os.path.join(G["outdir"], "vgdiag%d_%d" % (os.getpid(), int(time.time() * 1e6) % 10 ** 9))
+    argv = VG + ["--log-file=" + log, G["bins"]["ref"], "-t", proto["t"]] + (["-E"] if proto["m"] == "E" else []) + [G["src"][proto["i"]]]
+    try:
+        subprocess.run(argv, stdin=subprocess.DEVNULL, stdout=subprocess.DEVNULL, stderr=subprocess.DEVNULL, timeout=RUN_TIMEOUT * 8,
+                       env={"PATH": "/usr/bin:/bin"})
+    except subprocess.TimeoutExpired:
+        return "timeout"
+    for head, frames in vg_reports(log):
+        if re.match(r"(Invalid|Mismatched|Source and destination|Argument)", head):
+            return "<".join(frames[:2]) or "?"
+        if UNINIT_PAT.search(head):
+            return "uninit@" + ("<".join(frames[:2]) or "?")
+    return "none"
 
 
 def exec_job(job):
@@ -186,6 +211,9 @@ ERR_SNIPPETS = [
     "int f(void) { l: l: return 0; }\n", "int f(void) { switch (1) { case 1: case 1: ; } return 0; }\n",
     "char s[] = \"caf\xc3\xa9 \\t \x7f \x80\xff\";\n", "double d = 1e308 * 10; float g = 3.14159265358979f; double h = 0.1;\n",
     "int main(void) { return \"abc\"[1] + L'x' + u'y'; }\n",
+    "int f(void) { return 1 +; }\n",
+    # known finding (known_findings.d/C20.json): use-after-free in pp.c expandfunc, result depends on the allocator (index % 3 == 0: also run with -E)
+    "#define f(a) a\n#define t(a) a\nt(t(f)x)\n",
 ]
 
 TOKRE = re.compile(r'\s+|//[^\n]*|/\*.*?\*/|"(?:\\.|[^"\\\n])*"|\'(?:\\.|[^\'\\\n])*\'|[A-Za-z_]\w*|\.?\d(?:[eEpP][+-]|[\w.])*'
@@ -278,9 +306,16 @@ def make_inputs(ctx):
         n, t, a, m = rng.choice(texts)
         cut = rng.randrange(0, max(1, len(t)))
         add("trunc:%s@%d" % (n, cut), t[:cut].encode("latin-1"), a, m)
-    for k in range(nmut):
-        n, t, a, m = rng.choice(texts)
-        add("mut:%d:%s" % (k, n), mutate(rng, t, pool).encode("latin-1"), a, m if rng.random() < 0.8 else ("E" if m == "c" else "c"))
+    try:        # shared spec-driven generator (spec/Mutate.tla chooses the edits)
+        import mutate as shared_mutate
+        for k, (txt, a, m, descr) in enumerate(shared_mutate.generate(ctx, nmut)):
+            add("mut:%d:%s" % (k, descr["file"]), txt.encode("utf-8", "surrogateescape"), a, m)
+        ctx.cov["mutant_generator"] = "spec/Mutate.tla via harness/mutate.py"
+    except Exception as ex:      # somebody else's module is being edited: fall back to the local seeded mutator
+        ctx.cov["mutant_generator"] = "local seeded token mutator (Mutate.tla unavailable: %s)" % str(ex)[:120]
+        for k in range(nmut):
+            n, t, a, m = rng.choice(texts)
+            add("mut:%d:%s" % (k, n), mutate(rng, t, pool).encode("latin-1"), a, m if rng.random() < 0.8 else ("E" if m == "c" else "c"))
     # identity by content + options
     seen, out = set(), []
     for it in inputs:
@@ -294,8 +329,8 @@ def make_inputs(ctx):
 
 
 # ---- TLC-enumerated environments -----------------------------------------------------------------
-def env_id(row):
-    return ".".join(str(x) for x in row)
+def env_id(row, which="main"):
+    return which + ":" + ".".join(str(x) for x in row)
 
 
 def tlc_envs(ctx, cfg, rot=0, stage2=False):
@@ -304,7 +339,7 @@ def tlc_envs(ctx, cfg, rot=0, stage2=False):
     for v in r.vcases:
         j = json.loads(v)
         if "rows" in j:
-            rows += [(env_id(x["row"]), x["env"]) for x in j["rows"]]
+            rows += [(env_id(x["row"], j["which"]), x["env"]) for x in j["rows"]]
             ctx.cov.setdefault("covering_arrays", []).append({"cfg": cfg, "rot": rot, "rows": len(j["rows"]), "pairs": j["npairs"]})
         else:
             rows.append((env_id(j["row"]), j["env"]))
@@ -362,24 +397,41 @@ def attribute(ctx, rej, jobs_by_key, envs):
         if not dims:
             dims = ["interaction"]
     comp = [n for n, x, y in zip(("rc", "out", "err"), ra[0], rb[0]) if x != y] or ["unstable"]
-    return "pure:dims=%s:diff=%s" % ("+".join(dims), "+".join(comp)), {"rerun_a": ra, "rerun_b": rb, "env_a": ea, "env_b": eb}
+    mem = memerr_signature(proto)
+    return ("pure:memerr=%s:dims=%s:diff=%s" % (mem, "+".join(dims), "+".join(comp)),
+            {"rerun_a": ra, "rerun_b": rb, "env_a": ea, "env_b": eb, "memcheck_first_invalid_access": mem})
 
 
 def judge(ctx, events, jobs_by_key, envs, tag):
-    """Validate, report every rejection TLC finds (bounded), return number of accepted events."""
-    events = list(events)
-    for _round in range(12):
-        rej = validate_log(ctx, events, "%s_%d" % (tag, _round))
+    """Validate the log with TLC; report every rejection (bounded).  The log is grouped by (input, opts); keys are independent in
+    Pure.tla, so after a rejection inside one group validation resumes with the groups that follow it."""
+    order, groups = [], {}
+    for ev in events:
+        k = (ev["i"], ev["o"])
+        if k not in groups:
+            groups[k] = []
+            order.append(k)
+        groups[k].append(ev)
+    start, accepted = 0, 0
+    for _round in range(25):
+        todo = [ev for k in order[start:] for ev in groups[k]]
+        if not todo:
+            break
+        rej = validate_log(ctx, todo, "%s_%d" % (tag, _round))
         if rej is None:
-            ctx.validated(len(events))
-            return len(events)
+            accepted += len(todo)
+            break
         ev = rej["event"]
-        proto = jobs_by_key[(ev["i"], ev["o"])]
+        k = (ev["i"], ev["o"])
+        gi = order.index(k)
+        accepted += sum(len(groups[x]) for x in order[start:gi])
+        proto = jobs_by_key[k]
         case = {"input": proto["name"], "opts": ev["o"], "text": G["text"][ev["i"]].decode("latin-1")[:4000], "reject": rej}
         if ev.get("u", 0) > 0:
             ctx.violation("uninit:" + ev["uf"], "valgrind memcheck: %d uninitialised-value report(s), top in-repo frame %s, input %s (%s)"
                           % (ev["u"], ev["uf"], proto["name"], ev["o"]), case)
-            events = [x for x in events if not (x["u"] > 0 and x["uf"] == ev["uf"])]
+            groups[k] = [x for x in groups[k] if not x["u"] > 0]
+            start = gi          # re-validate this group without its forbidden events
             continue
         key, info = attribute(ctx, rej, jobs_by_key, envs)
         case.update(info)
@@ -390,8 +442,11 @@ def judge(ctx, events, jobs_by_key, envs, tag):
             ctx.violation(key, "two runs of the same input/options differ: %s (%s): env %s -> rc=%s out=%s err=%s ; env %s -> rc=%s out=%s err=%s"
                           % (proto["name"], ev["o"], rej["first"]["env"], rej["first"]["rc"], rej["first"]["so"], rej["first"]["se"],
                              ev["env"], ev["rc"], ev["so"], ev["se"]), case)
-        events = [x for x in events if not (x["i"] == ev["i"] and x["o"] == ev["o"])]
-    raise vlib.MachineryError("Trace_Pure still rejects after 12 reported findings")
+        start = gi + 1
+    else:
+        raise vlib.MachineryError("Trace_Pure still rejects after 25 reported findings")
+    ctx.validated(accepted)
+    return accepted
 
 
 # ---- structural supports ------------------------------------------------------------------------------
@@ -441,7 +496,7 @@ def ids_model(ctx):
 
 def ids_flow_b(ctx, inputs):
     """Run the hooks build on inputs, keep the H10 `id` events, validate with Trace_Ids."""
-    hooks = vlib.build("hooks")
+    hooks = my_build(ctx, "hooks")
     sel = [it for it in inputs if it["m"] == "c"]
     if ctx.quick:
         sel = [it for k, it in enumerate(sel) if it["name"].startswith("corpus:") or k % 5 == 0]
@@ -535,6 +590,53 @@ def scan_structure(ctx, plain):
     ctx.cov["imports_checked"] = len(syms)
 
 
+def my_build(ctx, flavour):
+    """Binary to run, copied into this run's scratch (the shared build cache evicts per flavour while other checks run).
+    For a scratch copy of the sources (VERIF_REPO, negative controls) the build is private and never enters the cache."""
+    dst = ctx.path("bin-" + flavour)
+    os.makedirs(dst, exist_ok=True)
+    exe = os.path.join(dst, "cproc-qbe")
+    if os.path.realpath(vlib.REPO) == "/repo":
+        for attempt in range(3):
+            d = vlib.build(flavour)
+            try:
+                shutil.copy2(os.path.join(d, "cproc-qbe"), exe)
+                return dst
+            except OSError:
+                time.sleep(1)       # evicted between build and copy: rebuild
+        raise vlib.MachineryError("build cache keeps vanishing (%s)" % flavour)
+    cc, cflags, ldflags = vlib.BUILD_FLAVOURS[flavour]
+    obj = ctx.path("obj-" + flavour)
+    p = subprocess.run(["make", "-s", "-j16", "-C", vlib.REPO, "objdir=" + obj, "CC=" + cc, "CFLAGS=" + cflags, "LDFLAGS=" + ldflags],
+                       stdout=subprocess.PIPE, stderr=subprocess.STDOUT, text=True)
+    if p.returncode != 0 or not os.path.exists(os.path.join(obj, "cproc-qbe")):
+        raise vlib.MachineryError("private build %s failed:\n%s" % (flavour, p.stdout[-3000:]))
+    shutil.copy2(os.path.join(obj, "cproc-qbe"), exe)
+    shutil.rmtree(obj, ignore_errors=True)
+    return dst
+
+
+def stage2_binary(ctx):
+    """The self-built compiler, only if it was built from exactly these sources (cache key = hash of the sources)."""
+    if os.path.realpath(vlib.REPO) != "/repo":
+        return None, "sources are a scratch copy (VERIF_REPO): no stage 2 of them exists"
+    d = os.path.join(vlib.WORK, "build", vlib.repo_hash() + "-s2plain")
+    if not os.path.exists(os.path.join(d, ".ok")) and not ctx.quick:
+        try:
+            import stage2
+            d = stage2.build("plain")
+        except Exception as ex:           # C02 reports build failures; here the dimension is simply absent
+            return None, "stage 2 could not be built: %s" % str(ex)[:200]
+    try:
+        dst = ctx.path("bin-stage2")
+        os.makedirs(dst, exist_ok=True)
+        shutil.copy2(os.path.join(d, "cproc-qbe"), os.path.join(dst, "cproc-qbe"))
+        return os.path.join(dst, "cproc-qbe"), None
+    except OSError:
+        alias = "" if not os.path.exists(STAGE2) else " (%s exists but is not known to match the current sources)" % STAGE2
+        return None, "no stage-2 build of the current sources in the build cache%s" % alias
+
+
 # ---- main --------------------------------------------------------------------------------------------------------
 def prefilter(ctx, pool, inputs):
     """Resource pre-filter (not logged): drop inputs that hang or exhaust memory -- their outcome depends on
@@ -578,7 +680,8 @@ def run(ctx):
         "output or a diagnostic. Structural: MapPure (hash-independent lookups) replayed into map.c with arbitrary hashes; Ids.tla bound by "
         "H10 hook traces.")
     # --- design-level model checks of the monitor and the generator ------------------------------------------------
-    stage2 = os.path.exists(STAGE2) and os.access(STAGE2, os.X_OK)
+    s2exe, s2why = stage2_binary(ctx)
+    stage2 = s2exe is not None
     r = ctx.tlc_must_pass("Pure", "MC_Pure_monitor.cfg", workers=2, coverage=True, timeout=600)
     ctx.check_coverage(r)
     envs_pair = tlc_envs(ctx, "MC_Pure_pairwise.cfg", rot=ctx.seed % 7, stage2=stage2)
@@ -592,12 +695,12 @@ def run(ctx):
     envs.update(dict(extra_arrays))
     phase("tlc_envs_and_monitor")
     # --- builds, scratch -------------------------------------------------------------------------------------------------
-    plain = vlib.build("plain")
+    plain = my_build(ctx, "plain")
     G["bins"] = {"ref": os.path.join(plain, "cproc-qbe")}
     if stage2:
-        G["bins"]["stage2"] = STAGE2
+        G["bins"]["stage2"] = s2exe
     else:
-        ctx.assumptions.append("binary dimension skipped: %s does not exist (only the reference-built binary was run)" % STAGE2)
+        ctx.assumptions.append("binary dimension skipped (only the reference-built binary was run): %s" % s2why)
     ctx.cov["binary_dimension"] = sorted(G["bins"])
     G["launch"] = vlib.cc_link([os.path.join(vlib.VERIF, "harness/c20_launch.c")], ctx.path("c20_launch"))
     G["outdir"] = ctx.path("out")
@@ -643,7 +746,8 @@ def run(ctx):
                 rows += extra_arrays
             if not ctx.quick:
                 rows = rows + vgrows
-            elif not it["name"].startswith("own:") and (k % 2 == 0 if it["name"].startswith("corpus:") else k % 4 == 0):
+            elif it["name"].startswith("err:") or (not it["name"].startswith("own:")
+                                                   and (k % 2 == 0 if it["name"].startswith("corpus:") else k % 4 == 0)):
                 rows = rows + [vgrows[(k // 2) % len(vgrows)]]
             for eid, env in rows:
                 jobs.append(dict(name=it["name"], i=it["i"], t=it["t"], m=it["m"], env=env, eid=eid, n=n))
